@@ -16,10 +16,10 @@ CHECKS = {
 }
 CHECKS["C09"] = dict(
     category="translation_validation",
-    text="(a) CrossHair executes the real Python methods of Unsigned/Signed/BitVector/Bit symbolically (operand values symbolic, widths <=2 quick / <=3 thorough, every operator x type pair x operand order incl. Python ints) and must report 'Confirmed over all paths' for type/width/value == spec; (b) designs with constant operands are compiled and the emitted literal is compared with the same spec. C02 proves the run-time logic against the same spec functions, so agreement of compile-time and run-time follows.",
-    design_ref="DESIGN.md 3/C09, 2.5, 2.7",
+    text="(a) CrossHair executes the real Python methods of Unsigned/Signed/BitVector/Bit symbolically (operand values symbolic, widths <=2 quick / <=3 thorough, every operator x type pair x operand order incl. Python ints) and must report 'Confirmed over all paths' for type/width/value == spec; (b) designs with constant operands are compiled and the emitted literal is compared with the same spec. C02 proves the run-time logic against the same spec functions, so agreement of compile-time and run-time follows. (c) the division / remainder / modulus kernels of _op, Signed, Unsigned, Integer are translated from their AST into QF_BVFP (int / int as the correctly rounded quotient) and proved equal to the exact operation for all 64-bit operands; sat witnesses are replayed on the public API.",
+    design_ref="DESIGN.md 3/C09, 2.5, 2.7, 2.7b",
     note="Trusted: CrossHair/z3, the spec table; widths bounded as stated (one path per operand valuation); divisor != 0; int operands representable in the vector type. 'Not confirmed' counts as inconclusive (exit 2), never as held.",
-    technique="CrossHair symbolic execution of the Python primitives vs single-source spec + z3 check of folded literals",
+    technique="CrossHair symbolic execution of the Python primitives vs single-source spec + z3 check of folded literals + z3 (QF_BVFP) on the AST-translated full-width division kernels",
     engine="E-PY",
 )
 CHECKS["C01"] = dict(
@@ -68,7 +68,7 @@ CHECKS["C17"] = dict(
     category="translation_validation",
     text="Bank of serialisable type compositions (primitives; records nested / inherited / templated / with bool, enum and array fields; std.Array incl. nested and of records; std.Enum, FlagEnum; SFixed/UFixed; Serialized[T]; BitField incl. nested): for each, z3 proves for ALL bit patterns / field values that to_bits(from_bits[T](b)) == b, each field of from_bits[T](b) is exactly its documented bit range (first field / element 0 at the LSBs), to_bits of a value built from fields is the documented concatenation, from_bits(to_bits(x)) == x, count_bits(T) is the documented width, and BitField reads/writes touch exactly their range.",
     design_ref="DESIGN.md 3/C17",
-    note="Trusted: VHDL-subset semantics, layout rule of the statement, z3. Total width <= 8 bits per type; emitted-logic side only (the Python-constant side runs the same std functions over the primitives C09 decides).",
+    note="Trusted: VHDL-subset semantics, layout rule of the statement, z3. Total width <= 10 bits per type (12 thorough), hand-written and generated type compositions; the compile-time side is covered by literal twins of the round-trip / layout cells (concrete evaluations, not a solver claim).",
     technique="bounded symbolic translation validation (z3) of serialisation cells against the documented layout",
 )
 CHECKS["C16"] = dict(
@@ -105,7 +105,7 @@ CHECKS["C19"] = dict(
     text="SFixed/UFixed formats left in [-2..3], right in [-3..2], width <= 4 (quick, seeded subset of pairs) / <= 5 (thorough, all pairs): for every format pair and every style combination z3 proves for ALL raw values that + - * are exact in the result format the implementation chooses (range-checked; UFixed '-' modulo the range), resize equals floor / round-half-even followed by wrap / saturate in exact scaled-integer arithmetic (saturating cells split into in-range / above-max / below-min obligations), constructors from int, Signed, Unsigned and other formats preserve the number, equality compares represented numbers.",
     design_ref="DESIGN.md 3/C19",
     note="Trusted: exact scaled-integer specification in vfw/props/c19.py, VHDL-subset semantics, z3. Not covered: construction from Python floats. Known findings (resize between non-overlapping formats) are listed in known_findings.json.",
-    technique="bounded symbolic translation validation (z3) against exact scaled-integer arithmetic",
+    technique="bounded symbolic translation validation (z3) against exact scaled-integer arithmetic + z3 (QF_BVFP) on the AST-translated number-to-raw kernel",
 )
 CHECKS["C07"] = dict(
     category="other",
